@@ -229,6 +229,7 @@ def check(model: Model, run: Run) -> None:
         if not ok:
             run.fail(Finding("J2-escape-lead-byte-escaped", f"{FILTER}.{esite.name}", f"lead={chr(lead)!r}", "the escape character itself is not escaped", model.loc(FILTER, esite.node)))
     parser_structure_rules(model, run, unesc)
+    operator_agreement(model, run)
     from .c19 import parse_results_fresh
     parse_results_fresh(model, run, "sansldap._filter", "J5-parse-results-are-fresh", "from_string(str(f)) == f")
 
@@ -332,3 +333,71 @@ def parser_structure_rules(model: Model, run: Run, unesc) -> None:
                     run.fail(Finding("J6-present-iff-raw-asterisk", fi.qualname, "FilterPresent condition", f"{fi.name} returns a presence filter under {lits[-3:]}: it must be chosen exactly when "
                                      "the raw value text is b'*'; anything wider turns substring filters whose text it also covers into presence filters", model.loc(fi.module, r)))
     run.floor("FilterPresent returns in the filter string parser", n6, 1)
+
+
+def operator_agreement(model: Model, run: Run) -> None:
+    """J8: sibling cross-check of the two operator tables. The text __str__ writes around attribute and value ("(&", ">=",
+    "~=", ":=" ...) starts with the character under which the string parser builds that very class (`filter_type == '>'`,
+    `complex_type == '!'`): a swap on either side makes text -> filter -> text change the kind of filter."""
+    from ..anchors import filt as filter_anchors
+    from ..srcmodel import dominating_literals
+    import re as _re
+    fa = filter_anchors(model)
+    # parser side: class -> set of characters whose equality test dominates `return Class(...)`
+    built: Dict[str, Set[str]] = {}
+    fallthrough: Dict[str, List[str]] = {}
+    for fi in fa.parser_functions:
+        for r in walk_no_nested(fi.node):
+            if not (isinstance(r, ast.Return) and r.value is not None):
+                continue
+            for c in ast.walk(r.value):
+                if isinstance(c, ast.Call) and isinstance(c.func, ast.Name) and model.resolve_name(FILTER, c.func.id) in model.classes and \
+                        model.is_subclass(model.resolve_name(FILTER, c.func.id), f"{FILTER}.LDAPFilter"):
+                    lits = dominating_literals(fi.node, r)
+                    chars = set()
+                    for l in lits:
+                        m_ = _re.fullmatch(r"(\w+) == '(.)'", l)
+                        if m_:
+                            chars.add(m_.group(2))
+                    built.setdefault(c.func.id, set()).update(chars)
+                    if not chars:
+                        fallthrough.setdefault(c.func.id, []).extend(l for l in lits if "!=" in l)
+    n = 0
+    for cq in model.subclasses(f"{FILTER}.LDAPFilter", strict=True):
+        c = model.classes[cq]
+        strm = c.methods.get("__str__")
+        if strm is None:
+            continue
+        rets = [r for r in walk_no_nested(strm.node) if isinstance(r, ast.Return) and isinstance(r.value, ast.JoinedStr)]
+        if len(rets) != 1:
+            continue
+        parts = rets[0].value.values
+        consts = [(i, p.value) for i, p in enumerate(parts) if isinstance(p, ast.Constant) and isinstance(p.value, str)]
+        if not consts or not consts[0][1].startswith("("):
+            continue
+        first = consts[0][1]
+        if len(first) > 1:
+            op = first[1:]             # "(&", "(|", "(!"
+        else:
+            op = consts[1][1] if len(consts) > 1 else ""      # the text after the attribute: "=", ">=", "~=", ":=", "=*)"
+        chars = built.get(c.name)
+        if chars is None:
+            continue
+        n += 1
+        if chars:
+            ok = len(chars) == 1 and op.startswith(next(iter(chars)))
+            why = f"the parser builds {c.name} under {sorted(chars)} but __str__ writes {op!r}"
+        else:
+            # built in a fall-through branch: the operator written must be none of the characters excluded on the way there
+            # (`complex_type != '!'`, `filter_type != '>'` ...); for the simple filters that leaves the plain '='
+            excluded = set()
+            for l in fallthrough.get(c.name, []):
+                m_ = _re.fullmatch(r"(\w+) != '(.)'", l)
+                if m_:
+                    excluded.add(m_.group(2))
+            ok = bool(op) and op[0] not in excluded and (op.startswith("=") or (len(first) > 1 and bool(excluded)))
+            why = f"the parser builds {c.name} in the branch that excludes {sorted(excluded)} but __str__ writes {op!r}"
+        run.ob("J8-operator-tables-agree", ok, {"class": c.name, "parser_chars": sorted(chars), "str_operator": op})
+        if not ok:
+            run.fail(Finding("J8-operator-tables-agree", cq, f"parser={sorted(chars)} str={op}", why + ": the text form parses back as a different kind of filter", model.loc(FILTER, strm.node)))
+    run.floor("filter classes with an operator in both tables", n, 8)
